@@ -210,7 +210,11 @@ func (w *World) canonCall(c *ssa.CallCommon, d int) string {
 			for _, a := range c.Args[1:] {
 				args = append(args, w.canon(a, d+1))
 			}
-			return w.canon(c.Args[0], d+1) + "." + fn.Name() + "(" + strings.Join(args, ", ") + ")"
+			mname := fn.Name()
+			if o := fn.Origin(); o != nil {
+				mname = o.Name()
+			}
+			return w.canon(c.Args[0], d+1) + "." + mname + "(" + strings.Join(args, ", ") + ")"
 		}
 		for _, a := range c.Args {
 			args = append(args, w.canon(a, d+1))
